@@ -1,5 +1,7 @@
 import CorsVerif.Proofs.Accepted
 import CorsVerif.Proofs.Serve
+import CorsVerif.Proofs.Pipeline
+import CorsVerif.Proofs.Sound
 /-
   C09 — Debug mode follows the documented state machine over any call history; debug mode
   changes nothing but preflight diagnostics.
@@ -112,6 +114,159 @@ theorem C09_preflight_next (dec : Dec) (icfg : ICfg) (dbg : Bool) (r : Req) (pre
   simp only [serveDec, ho, ha, hm, beq_self_eq_true, if_true, handleCORSPreflight]
   cases preflightSteps dec icfg r.hdrs o a dbg <;> cases dbg <;> rfl
 
+/-! ### What debug mode may change on a preflight -/
+
+open Pipeline
+
+/-- The diagnostic headers: the five the pipeline produces, and Access-Control-Max-Age. -/
+def isDiagKey (k : Bytes) : Prop := isPipelineKey k ∨ k = Facts.headers_ACMA
+
+theorem preflight_hdrs_frame (dec : Dec) (icfg : ICfg) (pre reqHdrs : HdrMap) (o m : Bytes) (dbg : Bool)
+    (k : Bytes) (hk : ¬ isDiagKey k) :
+    (handleCORSPreflight dec icfg pre reqHdrs o m dbg).hdrs k = preflightVary pre k := by
+  have hk1 : ¬ isPipelineKey k := fun h => hk (Or.inl h)
+  have hk2 : k ≠ Facts.headers_ACMA := fun h => hk (Or.inr h)
+  have hf := steps_frame dec icfg reqHdrs o m dbg k hk1
+  unfold handleCORSPreflight
+  cases hs : preflightSteps dec icfg reqHdrs o m dbg with
+  | originFail b =>
+    rw [hs] at hf
+    cases dbg
+    · rfl
+    · exact copy_none _ _ _ hf
+  | laterFail b =>
+    rw [hs] at hf
+    cases dbg
+    · rfl
+    · exact copy_none _ _ _ hf
+  | ok b =>
+    rw [hs] at hf
+    simp only []
+    split
+    · rw [assign_other _ _ _ _ hk2]; exact copy_none _ _ _ hf
+    · exact copy_none _ _ _ hf
+
+/-- **C09 (debug mode touches nothing but the diagnostics).** On a preflight, every response
+header other than the six diagnostic ones (Allow-Origin, Allow-Credentials, Allow-Private-Network,
+Allow-Methods, Allow-Headers, Max-Age) is the same in both debug modes — in particular Vary, and
+whatever was in the header map before. -/
+theorem C09_preflight_frame (dec : Dec) (icfg : ICfg) (r : Req) (pre : HdrMap) (h : r.isPreflight = true)
+    (k : Bytes) (hk : ¬ isDiagKey k) :
+    (serveDec dec icfg true r pre).hdrs k = (serveDec dec icfg false r pre).hdrs k := by
+  unfold Req.isPreflight at h
+  simp only [Bool.and_eq_true, beq_iff_eq, Option.isSome_iff_exists] at h
+  obtain ⟨⟨hm, ⟨o, ho⟩⟩, ⟨a, ha⟩⟩ := h
+  simp only [serveDec, ho, ha, hm, beq_self_eq_true, if_true]
+  rw [preflight_hdrs_frame _ _ _ _ _ _ true k hk, preflight_hdrs_frame _ _ _ _ _ _ false k hk]
+
+/-- **C09 (a preflight that succeeds without debug mode succeeds with it, identically up to
+Allow-Headers).** For an accepted configuration: same status, every header other than
+Access-Control-Allow-Headers identical, and Allow-Headers either identical or the full list of
+allowed request-header names. -/
+theorem C09_preflight_success (dec : Dec) (icfg : ICfg) (hwf : icfg.WF) (hrs : icfg.ReqHdrsSound)
+    (r : Req) (pre : HdrMap) (h : r.isPreflight = true)
+    (h0 : (serveDec dec icfg false r pre).status = some (okStatus icfg)) :
+    (serveDec dec icfg true r pre).status = some (okStatus icfg) ∧
+    (∀ k, k ≠ Facts.headers_ACAH → (serveDec dec icfg true r pre).hdrs k = (serveDec dec icfg false r pre).hdrs k) ∧
+    ((serveDec dec icfg true r pre).hdrs Facts.headers_ACAH = (serveDec dec icfg false r pre).hdrs Facts.headers_ACAH ∨
+     (serveDec dec icfg true r pre).hdrs Facts.headers_ACAH = some icfg.acah) := by
+  have hd : okStatus icfg ≠ forbidden := by
+    have := hwf.status_lt
+    unfold okStatus forbidden
+    simp only [Facts.cors_preflightFailStatuses]
+    omega
+  unfold Req.isPreflight at h
+  simp only [Bool.and_eq_true, beq_iff_eq, Option.isSome_iff_exists] at h
+  obtain ⟨⟨hm, ⟨o, ho⟩⟩, ⟨a, ha⟩⟩ := h
+  simp only [serveDec, ho, ha, hm, beq_self_eq_true, if_true] at h0 ⊢
+  -- debug off: the pipeline succeeded
+  cases hs0 : preflightSteps dec icfg r.hdrs o a false with
+  | originFail b =>
+    simp only [handleCORSPreflight, hs0, Bool.false_eq_true, if_false] at h0
+    exact absurd (Option.some.inj h0).symm hd
+  | laterFail b =>
+    simp only [handleCORSPreflight, hs0, Bool.false_eq_true, if_false] at h0
+    exact absurd (Option.some.inj h0).symm hd
+  | ok b0 =>
+    have c0 := (steps_ok_iffD dec icfg r.hdrs o a false).mp ⟨b0, hs0⟩
+    simp only [Bool.and_eq_true] at c0
+    obtain ⟨⟨⟨c1, c2⟩, c3⟩, c4⟩ := c0
+    -- hence it succeeds in debug mode too
+    have c4' : headerCondD dec icfg r.hdrs true = true := by
+      unfold headerCondD at c4 ⊢
+      cases hl : r.hdrs Facts.headers_ACRH with
+      | none => rfl
+      | some lines =>
+        simp only [hl, Bool.false_eq_true, if_false, if_true] at c4 ⊢
+        cases hast : icfg.asteriskReqHdrs with
+        | true => rfl
+        | false =>
+          simp only [hast, Bool.false_or, Bool.and_eq_true] at c4 ⊢
+          have hne : icfg.allowedReqHdrs.elems ≠ [] := by
+            intro h0
+            have : icfg.allowedReqHdrs.size = 0 := by unfold SortedSet.size; rw [h0]; rfl
+            rw [this] at c4
+            simp at c4
+          have := hrs.acah hast
+          rw [if_neg hne] at this
+          rw [this]; rfl
+    obtain ⟨b1, hs1⟩ := (steps_ok_iffD dec icfg r.hdrs o a true).mpr (by simp [c1, c2, c3, c4'])
+    obtain ⟨v0o, v0c, v0p, v0m, v0h⟩ := steps_ok_view hs0
+    obtain ⟨v1o, v1c, v1p, v1m, v1h⟩ := steps_ok_view hs1
+    have hsame : ∀ k, k ≠ Facts.headers_ACAH → b1 k = b0 k := by
+      intro k hk
+      by_cases hp : isPipelineKey k
+      · rcases hp with rfl | rfl | rfl | rfl | rfl
+        · rw [v0o, v1o]
+        · rw [v0c, v1c]
+        · rw [v0p, v1p]
+        · rw [v0m, v1m]
+        · exact absurd rfl hk
+      · have f0 := steps_frame dec icfg r.hdrs o a false k hp
+        have f1 := steps_frame dec icfg r.hdrs o a true k hp
+        rw [hs0] at f0
+        rw [hs1] at f1
+        exact f1.trans f0.symm
+    simp only [handleCORSPreflight, hs0, hs1]
+    refine ⟨trivial, ?_, ?_⟩
+    · intro k hk
+      have hb := hsame k hk
+      by_cases hk2 : k = Facts.headers_ACMA
+      · subst hk2
+        split
+        · rw [assign_same, assign_same]
+        · simp only [HdrMap.copy, hb]
+      · split
+        · rw [assign_other _ _ _ _ hk2, assign_other _ _ _ _ hk2]; simp only [HdrMap.copy, hb]
+        · simp only [HdrMap.copy, hb]
+    · have hA : Facts.headers_ACAH ≠ Facts.headers_ACMA := by decide
+      have hlook : ∀ b : Buf, (if (!icfg.acma.isEmpty) = true then ((preflightVary pre).copy b).assign Facts.headers_ACMA icfg.acma
+            else (preflightVary pre).copy b) Facts.headers_ACAH = ((preflightVary pre).copy b) Facts.headers_ACAH := by
+        intro b; split
+        · exact assign_other _ _ _ _ hA
+        · rfl
+      rw [hlook b1, hlook b0]
+      unfold expACAH at v0h v1h
+      cases hl : r.hdrs Facts.headers_ACRH with
+      | none =>
+        rw [hl] at v0h v1h
+        left
+        simp only [HdrMap.copy, v0h, v1h]
+      | some lines =>
+        rw [hl] at v0h v1h
+        simp only [] at v0h v1h
+        by_cases hx : (icfg.asteriskReqHdrs && !icfg.credentialed) = true
+        · rw [if_pos hx] at v0h v1h
+          left; simp only [HdrMap.copy, v0h, v1h]
+        · rw [if_neg hx] at v0h v1h
+          by_cases hy : (icfg.asteriskReqHdrs && icfg.credentialed) = true
+          · rw [if_pos hy] at v0h v1h
+            left; simp only [HdrMap.copy, v0h, v1h]
+          · rw [if_neg hy] at v0h v1h
+            simp only [Bool.not_true, Bool.false_eq_true, if_false] at v1h
+            right
+            simp only [HdrMap.copy, v1h]
+
 /-- Non-vacuity of the state machine: zero value, SetDebug(true), Reconfigure(nil) — debug stays off. -/
 example (ext : Ext) : ([Op.setDebug true, Op.reconfigureNil].foldl (Mw.step ext) Mw.zero).debug = false := rfl
 
@@ -120,5 +275,7 @@ example (ext : Ext) : ([Op.setDebug true, Op.reconfigureNil].foldl (Mw.step ext)
 #print axioms C09_ctor
 #print axioms C09_nonpreflight
 #print axioms C09_preflight_next
+#print axioms C09_preflight_frame
+#print axioms C09_preflight_success
 
 end Cors
